@@ -1,6 +1,6 @@
 #!/bin/bash
 # usage: resid.sh <Cxx> <seed>  -- run a quick check at a seed and summarise unattributed findings
-cd /verif
+cd "$(dirname "${BASH_SOURCE[0]}")/.."
 VERIF_SEED=$2 ./check $1 > /tmp/resid.$1.$2.log 2>&1
 tail -1 /tmp/resid.$1.$2.log | cut -c1-110
 mkdir -p /tmp/resid
